@@ -100,7 +100,7 @@ def scen_compare(ctx, M):
     t = ctx.int('t', LO, HI)
     aware = ctx.truth(ctx.bool('aware'))
     off = ctx.int('off', -DAY + 1, DAY - 1) if aware else None
-    secs = ctx.int('secs', -10 ** 9, 10 ** 9)
+    secs = ctx.int('secs', -32 * 10 ** 10, 32 * 10 ** 10)
     adv = ctx.int('adv_us', -365 * DAY, 365 * DAY)
     adv_s = ctx.int('adv_s', -10 ** 7, 10 ** 7)
     dt = mk_dt(ctx, t, off)
